@@ -305,7 +305,7 @@ impl W {
                 let first = self.nw.pool[did].presented == 1;
                 self.nw.client_recv(c, &d.bytes);
                 let is_connected = self.nw.clients[c].client.is_connected();
-                if is_connected && first && matches!(d.kind, 4 | 5) && (was_connected || d.kind == 4) {
+                if is_connected && first && matches!(d.kind, 4 | 5) {
                     self.cl[c].cli_last = Some(self.cl[c].cli_now);
                     self.cl[c].accepted_down.push(did);
                 }
